@@ -151,6 +151,12 @@ class C09(Check):
         big = {'depth': D - 1, 'adds': [['a', 1], ['a', -1]], 'requests': [{'a': 1}, {'a': BIG}, {'a': BIG - 1}],
                'releases': [None, {'a': 1}, {'a': BIG}], 'pools': [['a', BIG]], 'resys': False}
         jobs += split_first('rm', f'RM-C09big[D{D - 1}]', big, e2=5, max_states=3000000, max_seconds=3000)
+        # fractional amounts (documented "int, float"), dyadic so that sums are exact: with 0.1 / 0.2 / 0.8 the pinned
+        # library's own usage differs from the sum of the holdings by float rounding (0.20000000000000007 vs 0.2), which
+        # an exact comparison cannot tell from a defect
+        frac = {'depth': D - 1, 'adds': [['a', 0.25], ['a', -0.25]], 'requests': [{'a': 0.25}, {'a': 0.5}, {'a': 0.75}, {'a': 1.25}],
+                'releases': [None, {'a': 0.25}], 'pools': [['a', 1]], 'resys': False}
+        jobs += split_first('rm', f'RM-C09frac[D{D - 1}]', frac, e2=5, max_states=3000000, max_seconds=3000)
         return jobs
 
 
@@ -190,6 +196,9 @@ class C10(Check):
         p4 = {'depth': D, 'adds': [['n', 1], ['n', -1], ['a', 1]], 'requests': [{'n': 1}, {'a': BIG}, {'a': 1, 'n': 1}],
               'pools': [['a', BIG]], 'kinds': ['noop', 'take']}
         jobs += split_first('rmwait', f'RMWAIT-C10new[D{D}]', p4, e2=50, max_states=3000000, max_seconds=3000)
+        p5 = {'depth': D, 'adds': [['a', 0.25], ['a', -0.25]], 'requests': [{'a': 0.25}, {'a': 0.5}, {'a': 0.75}],
+              'pools': [['a', 1]], 'kinds': ['noop', 'take']}
+        jobs += split_first('rmwait', f'RMWAIT-C10frac[D{D}]', p5, e2=50, max_states=3000000, max_seconds=3000)
         return jobs
 
 
